@@ -1,4 +1,5 @@
 """C13 — only DISCOVER / REQUEST-for-us messages are answered or change lease state (structural clauses)."""
+import os
 from ..util import *
 from ..prov import strip, norm, show, subterms
 from ..cfg import cfg_of
@@ -32,6 +33,111 @@ def _inner_const(x):
     return x
 
 
+def _is_msgtype(x):
+    """the term is the request's message type: get_messagetype(..) seen through Some's payload, the newtype's field, casts and borrows"""
+    x = norm(x)
+    for _ in range(10):
+        if x[0] in ("ref", "deref"):
+            x = norm(x[1])
+        elif x[0] == "field":
+            x = norm(x[1])
+        elif x[0] == "payload":
+            x = norm(x[2])
+        elif x[0] == "cast":
+            x = norm(x[3])
+        elif x[0] == "call" and len(x[2]) == 1 and str(x[1]).rsplit("::", 1)[-1] in ("clone", "unwrap", "expect", "unwrap_unchecked", "into", "from", "copied", "cloned"):
+            x = norm(x[2][0])
+        else:
+            break
+    return x[0] == "call" and str(x[1]).endswith("get_messagetype")
+
+
+def message_type_sets(P, disp):
+    """Which message types can be in hand at each block of the dispatcher: a forward dataflow over the classes {each constant the
+    type is compared with, 'other' (any other value), 'none' (no type option)}, refined at every switch whose discriminant is a
+    function of the message type alone (the Option's discriminant, the value itself, ==/!= against a constant, negations of those,
+    whether written in place or kept in a boolean first). Returns (sets per block, constants) or None when the type is never tested."""
+    T = terms(P, disp)
+    cfg = cfg_of(disp)
+    consts = set()
+    sw = {}
+
+    def bool_fn(d, depth=0):
+        """class -> bool (or None for unknown) for a boolean term over the message type"""
+        d = norm(d)
+        if depth > 8:
+            return None
+        if d[0] == "un" and d[1] == "Not":
+            f = bool_fn(d[2], depth + 1)
+            return None if f is None else (lambda c, f=f: None if f(c) is None else not f(c))
+        a = b = None
+        op = None
+        if d[0] == "call" and len(d[2]) == 2 and str(d[1]).rsplit("::", 1)[-1] in ("eq", "ne"):
+            a, b, op = d[2][0], d[2][1], str(d[1]).rsplit("::", 1)[-1]
+        elif d[0] == "bin" and d[1] in ("Eq", "Ne"):
+            a, b, op = d[2], d[3], d[1].lower()
+        if op is None:
+            return None
+        if not _is_msgtype(a):
+            a, b = b, a
+        k = const_value(_inner_const(b))
+        if not _is_msgtype(a) or k is None:
+            return None
+        consts.add(k)
+        return lambda c, k=k, op=op: None if c == "none" else ((c == k) if op == "eq" else (c != k))
+    for bb, tm in disp.terms():
+        if tm["k"] != "switch":
+            continue
+        d = norm(T.at_term(tm["discr"], bb))
+        if d[0] == "discr" and _is_msgtype(d[1]) and norm(d[1])[0] == "call":
+            sw[bb] = ("opt", None)
+        elif d[0] in ("field", "cast", "payload") and _is_msgtype(d):
+            for v, _ in tm["targets"]:
+                consts.add(v)
+            sw[bb] = ("val", None)
+        else:
+            f = bool_fn(d)
+            if f is not None:
+                sw[bb] = ("bool", f)
+    if not sw:
+        return None
+    U = set(consts) | {"other", "none"}
+    sets = {b: set() for b in range(len(disp.blocks))}
+    sets[0] = set(U)
+    work = [0]
+    while work:
+        bb = work.pop()
+        cur = sets[bb]
+        tm = disp.blocks[bb]["term"]
+        outs = []
+        if bb in sw and tm is not None:
+            kind, f = sw[bb]
+            listed = {v for v, _ in tm["targets"]}
+            for c in cur:
+                if kind == "opt":
+                    vs = {0} if c == "none" else {1}
+                elif kind == "val":
+                    vs = None if c == "none" else ({c} if c != "other" else {"x"})
+                else:
+                    r = f(c)
+                    vs = None if r is None else {1 if r else 0}
+                for v, tgt in tm["targets"]:
+                    if vs is None or v in vs:
+                        outs.append((tgt, c))
+                if vs is None or (vs - listed):
+                    outs.append((tm["otherwise"], c))
+        else:
+            for t in cfg.succ[bb]:
+                for c in cur:
+                    outs.append((t, c))
+        for t, c in outs:
+            if c not in sets[t]:
+                sets[t].add(c)
+                if t not in work:
+                    work.append(t)
+    return sets, consts
+
+
 def _handlers(P, cg):
     hs = [fid for fid, sig in P.sigs.items()
           if sig["inputs"] and sig["inputs"][0].endswith("dhcp::pool::Pool") and sig["inputs"][0].startswith("&mut")
@@ -43,8 +149,8 @@ def _handlers(P, cg):
 FIXED_WIDTH = {"erbium::dhcp::dhcppkt::MessageType": 1, "u8": 1, "std::net::Ipv4Addr": 4}
 
 
-def fixed_width_values(ctx, rule="R7"):
-    """R7 a value of fixed width is that many octets or it is nothing: the message type (and the other one- and four-octet values, which
+def fixed_width_values(ctx, rule="R8"):
+    """R8 a value of fixed width is that many octets or it is nothing: the message type (and the other one- and four-octet values, which
     include the requested address and the server identifier the handlers compare) decodes only from an option value of exactly its width.
     A longer value is what concatenating a repeated option produces ("REQUEST" then "RELEASE" is [3, 7]); taking its first octet answers
     a message whose type nobody can name."""
@@ -146,6 +252,15 @@ def run(ctx):
             for e in fe:
                 if not (tblocks & (cfg.reachable_from(e[1]) - {sbb})):
                     other_edges.append(e)       # no further test can be reached: the message is of none of the dispatched types
+    state_calls0 = [(b2, t2) for b2, t2 in disp.calls() if callee_name(t2) in reach_writer]
+    by_edges = bool(arm_edges) and bool(other_edges) and all(
+        len([v for v in arm_edges if any(cfg.edge_dominates(e, b2) for e in arm_edges[v])]) == 1 for b2, _ in state_calls0)
+    if not by_edges or os.environ.get("SA_C13_BY_SETS"):
+        # neither table shape decides it: ask which types can be in hand where the handlers are called
+        ms = message_type_sets(P, disp)
+        if ms is not None:
+            _r1_by_sets(ctx, P, cg, disp, T, cfg, ms, state_calls0, writer, inserts)
+            return
     if not arm_edges or not other_edges:
         ctx.bad("R1", "type-switch-not-found", ctx.where(disp), "cannot find the switch on the DHCP message type; cannot decide")
         return
@@ -194,6 +309,45 @@ def run(ctx):
         ctx.check(not hit and errs and not oks, "R1", "other-types-yield-err-and-no-state-change:edge%d" % bad_edges.index(e), ctx.where(disp),
                   "messages of any other type (or none) must produce Err without reaching the lease writer (reaches: %s)" % (hit or "nothing"))
 
+    _after_dispatch(ctx, P, cg, disp, arm_callee, writer, inserts)
+
+
+def _r1_by_sets(ctx, P, cg, disp, T, cfg, ms, state_calls, writer, inserts):
+    """R1 decided from the message types that can be in hand at each block (message_type_sets)"""
+    sets, consts = ms
+    arm_callee = {}
+    vals = set()
+    for b2, t2 in state_calls:
+        here = sets.get(b2, set())
+        one = len(here) == 1 and not (here & {"other", "none"})
+        ctx.check(one, "R1", "state-changing-call-under-one-type-arm:%s" % callee_name(t2).split("::")[-1], ctx.where(disp, t2["sp"]),
+                  "a call that can reach the lease writer must be reached with exactly one message type in hand (types possible here: %s)" % sorted(map(str, here)))
+        vals |= {c for c in here if c not in ("other", "none")}
+        if one:
+            arm_callee[list(here)[0]] = callee_name(t2)
+    vals = sorted(vals)
+    want = sorted(int(P.consts[c].get("bits", -1)) for c in ("erbium::dhcp::dhcppkt::DHCPDISCOVER", "erbium::dhcp::dhcppkt::DHCPREQUEST") if c in P.consts)
+    ctx.check(vals == want == [1, 3], "R1", "dispatch-set=%s" % vals, ctx.where(disp, disp.span),
+              "exactly the message types DISCOVER(1) and REQUEST(3) may be dispatched to handlers; the dispatcher hands on %s" % vals)
+    ctx.floor("R1", "state-changing calls in the dispatcher", len(state_calls), 2)
+    indirect = [(b2, t2) for b2, t2 in disp.calls() if callee_name(t2) is None and t2["callee"].get("ptr") is not None]
+    ctx.check(not indirect, "R1", "dispatcher-calls-no-function-pointer", ctx.where(disp), "with this shape of dispatch every handler call must be direct")
+    # any other type, or none: Err and nothing else
+    stray = {b2 for b2, st in sets.items() if st & {"other", "none"}}
+    oks = [b2 for b2, i2, s2 in disp.stmts() if s2["p"] == (0,) and "rv" in s2 and s2["rv"]["k"] == "agg" and s2["rv"].get("variant") == "Ok" and b2 in stray]
+    errs = {}
+    for b2, i2, s2 in disp.stmts():
+        if s2["p"] == (0,) and "rv" in s2 and s2["rv"]["k"] == "agg" and s2["rv"].get("variant") == "Err":
+            for c in sets.get(b2, set()) & {"other", "none"}:
+                errs[c] = b2
+    dest0 = [callee_name(t2) or "?" for b2, t2 in disp.calls() if tuple(t2["dest"]) == (0,) and b2 in stray]
+    ctx.check(not oks and not dest0 and set(errs) == {"other", "none"}, "R1", "other-types-yield-err-and-no-state-change:sets", ctx.where(disp),
+              "messages of any other type (or none) must produce Err and nothing else (Ok built there: %s; result taken from: %s; Err for: %s)"
+              % (bool(oks), dest0 or "nothing", sorted(errs)))
+    _after_dispatch(ctx, P, cg, disp, arm_callee, writer, inserts)
+
+
+def _after_dispatch(ctx, P, cg, disp, arm_callee, writer, inserts):
     # ---- R2: who may call the writer / the handlers
     callers = sorted({cb.id for cb, _, _ in cg.callers(writer)})
     expected = sorted(set(arm_callee.values()))
